@@ -1022,11 +1022,72 @@ def group_semantics_oracle(meta, verdict):
     return out
 
 
+def directed_group_fixed():
+    """deterministic directed configurations (independent of the PRNG): for each governed field, the shapes that matter --
+    two members referring to the same target through offsets (validating one listed first / last), a chain, an absolute
+    reader, a reader whose approving exit sits in a subroutine -- each in every listing order"""
+    import itertools
+    out = []
+
+    def emit(fld, ty, members, order):
+        # members: list of (program lines, abs or None, [(off, target index)]); positions are 0..n-1 in member order
+        check = ["int 1000", "<="] if fld == "Fee" else ["global ZeroAddress", "=="]
+        lines, tl, progs = [], [], []
+        ids = [f"T{k}" for k in range(len(members))]
+        for k, (kind, ab, rels) in enumerate(members):
+            if kind == "trivial":
+                prog = ["#pragma version 6", "int 1", "return"]
+            elif kind[0] == "rel":
+                off = kind[1]
+                prog = ["#pragma version 6", "txn GroupIndex", f"int {abs(off)}", "+" if off >= 0 else "-", f"gtxns {fld}"] + check + ["assert", "int 1", "return"]
+            elif kind[0] == "relnocheck":
+                off = kind[1]
+                prog = ["#pragma version 6", "txn GroupIndex", f"int {abs(off)}", "+" if off >= 0 else "-", f"gtxns {fld}", "pop", "int 1", "return"]
+            elif kind[0] == "abs":
+                prog = ["#pragma version 6", f"gtxn {kind[1]} {fld}"] + check + ["assert", "int 1", "return"]
+            elif kind[0] == "relsub":
+                off = kind[1]
+                prog = ["#pragma version 6", "txn Amount", "int 5", "==", "bz checked", "callsub approve", "err", "checked:", "txn GroupIndex", f"int {abs(off)}", "+" if off >= 0 else "-", f"gtxns {fld}"] + check + ["assert", "int 1", "return", "approve:", "int 1", "return"]
+            else:
+                prog = ["#pragma version 6", f"txn {fld}"] + check + ["assert", "int 1", "return"]
+            lines.append(f"C 1 {len(prog)}")
+            lines += prog
+            lines.append("P 0")
+            progs.append("\n".join(prog))
+            rel = ",".join(f"{off}={ids[t]}" for off, t in rels) if rels else "-"
+            tl.append(f"T {ids[k]} {ty} 1 {k} - {ab if ab is not None else '-'} {rel}")
+        text = "\n".join(lines + [tl[k] for k in order])
+        DIRECTED_META[text] = {"pos": list(range(len(members))), "ids": ids, "field": fld, "type": ty, "programs": progs}
+        out.append(text)
+
+    for fld, ty in (("RekeyTo", "Any"), ("CloseRemainderTo", "Pay"), ("AssetCloseTo", "Axfer"), ("Fee", "Any")):
+        shapes = [
+            # T0 target; T1 validates T0 at offset -1; T2 also refers to T0 (offset -2) without validating
+            [("trivial", None, []), (("rel", -1), None, [(-1, 0)]), (("relnocheck", -2), None, [(-2, 0)])],
+            # chain: T1 validates T0, T2 validates T1
+            [("trivial", None, []), (("rel", -1), None, [(-1, 0)]), (("rel", -1), None, [(-1, 1)])],
+            # absolute reader of T0 (configured index), T2 unguarded
+            [("trivial", 0, []), (("abs", 0), 1, []), ("trivial", None, [])],
+            # reader that approves inside a subroutine without checking
+            [("trivial", None, []), (("relsub", -1), None, [(-1, 0)])],
+            # T1 guards T2 at +1, T0 unguarded, nobody has an absolute index
+            [("trivial", None, []), (("rel", 1), None, [(1, 2)]), ("trivial", None, [])],
+        ]
+        for members in shapes:
+            for order in itertools.permutations(range(len(members))):
+                emit(fld, ty, members, list(order))
+    return out
+
+
 def run_c13(ctx):
     cov = ctx["cov"]
     rng = ctx["rng"]
     n = 150 if ctx["tier"] == "quick" else 1500
     reqs = [("group", f"g{k}", gen_group(rng) if k % 3 == 0 else gen_group_directed(rng), []) for k in range(n)]
+    fixed = directed_group_fixed()
+    if ctx["tier"] == "quick":
+        fixed = fixed[::2] + fixed[1::8]     # every second configuration (all shapes, both kinds of order) in the quick tier
+    reqs += [("group", f"f{k}", t, []) for k, t in enumerate(fixed)]
     m, i = corr.run_both(reqs)
     nd = 0
     nvuln = 0
@@ -1110,7 +1171,28 @@ def run_c18(ctx):
     progs = cli_programs(ctx, 14 if ctx["tier"] == "quick" else 200)
     reqs = [("analyze", f"p{n}", t, []) for n, (_, t) in enumerate(progs)]
     m, _i = corr.run_both(reqs)
-    filt = [rng.choice(["1", "0 -> 1", "^0 -> 2", "3$", "2 -> [0-9]+ -> 4", "9"]) for _ in progs]
+    # the filter pattern is derived from the internal result (model) so that every kind of outcome is exercised
+    # deterministically: all paths match / two ADJACENT listed paths match / exactly one matches / none matches
+    def choose_filter(n):
+        mm = m.get(f"p{n}", {})
+        lists = [v for v in mm.get("paths", {}).values() if isinstance(v, list) and v] if isinstance(mm.get("paths"), dict) else []
+        longest = max(lists, key=len) if lists else []
+        shorts = [" -> ".join(map(str, p)) for p in longest]
+        mode = n % 5
+        if mode == 0 or not shorts:
+            return "^0"                                   # every path starts at block 0
+        if mode == 1 and len(shorts) >= 2:
+            a, b = shorts[0].split(" -> "), shorts[1].split(" -> ")
+            k = 0
+            while k < min(len(a), len(b)) and a[k] == b[k]:
+                k += 1
+            return "^" + " -> ".join(a[:max(1, k)]) + "( |$)"   # common prefix of the first two listed paths
+        if mode == 2:
+            return re.escape(shorts[-1]) + "$"             # exactly the last path
+        if mode == 3:
+            return " -> " + shorts[0].split(" -> ")[-1] + "$"   # paths ending in the first path's last block
+        return "-> 9999"                                    # nothing matches
+    filt = [choose_filter(n) for n in range(len(progs))]
     runs = par_map(lambda k: cli.full_run(progs[k][1], filter_regex=filt[k]), list(range(len(progs))))
     nfacts = 0
     nprog = 0
